@@ -36,6 +36,11 @@ class StopRun(Exception):
 class Recorder:
     def __init__(self, path, max_legs=None, label=""):
         self.out = open(path, "w")
+        self.pid = os.getpid()
+        self.streams = None          # per-handler random streams (C20): hid -> random.Random
+        self.stream_seed = 0
+        self.cur_stream = None
+        self.delays = {}             # hid -> (seconds before answering send_event_time, before answering send_out_state)
         self.max_legs = max_legs
         self.label = label
         self.seq = 0
@@ -66,6 +71,8 @@ class Recorder:
 
     # ------------------------------------------------------------------ low level
     def emit(self, ev, **rec):
+        if os.getpid() != self.pid:
+            return               # forked event-handler processes of the multi-process mediator do not write
         self.seq += 1
         rec["ev"] = ev
         rec["seq"] = self.seq
@@ -138,6 +145,20 @@ class Recorder:
 
     def hid(self, handler):
         return self.hids.get(id(handler), 0)
+
+    # ------------------------------------------------------------------ per-handler random streams and worker delays (C20)
+    def stream_of(self, hid):
+        if self.streams is None or not hid:
+            return None
+        s = self.streams.get(hid)
+        if s is None:
+            s = self.streams[hid] = random.Random(self.stream_seed * 7919 + hid)
+        return s
+
+    def worker_delay(self, hid, phase):
+        if os.getpid() != self.pid and hid in self.delays and self.delays[hid][phase] > 0:
+            import time
+            time.sleep(self.delays[hid][phase])
 
     # ------------------------------------------------------------------ dump / resume support
     def save_dump_copy(self, output_handler):
@@ -460,6 +481,7 @@ def install(recorder):
         def mk_push(orig):
             def push_event(self, time, event_handler):
                 orig(self, time, event_handler)
+                REC.hid_time[REC.hid(event_handler)] = time
                 REC.emit("push", hid=REC.hid(event_handler), t=tkey(time))
             return push_event
 
@@ -520,10 +542,13 @@ def install(recorder):
             hid = r.hid(self)
             instate = r.states(args[0]) if args and args[0] is not None else []
             outer, r.ctx = r.ctx, []
+            outer_stream, r.cur_stream = r.cur_stream, r.stream_of(hid)
             try:
                 ret = orig(self, *args)
             finally:
                 events, r.ctx = r.ctx, outer
+                r.cur_stream = outer_stream
+            r.worker_delay(hid, 0)
             if hid:
                 t = ret[0] if isinstance(ret, tuple) else ret
                 r.hid_time[hid] = t
@@ -538,10 +563,13 @@ def install(recorder):
             hid = r.hid(self)
             outer, r.ctx = r.ctx, []
             argstates = [r.states(a if isinstance(a, (list, tuple)) else [a]) for a in args]
+            outer_stream, r.cur_stream = r.cur_stream, r.stream_of(hid)
             try:
                 ret = orig(self, *args)
             finally:
                 events, r.ctx = r.ctx, outer
+                r.cur_stream = outer_stream
+            r.worker_delay(hid, 1)
             if hid:
                 r.emit("out", hid=hid, args=argstates, out=r.states(ret), sub=out_sub(self, events), **r.drain_descs())
             return ret
@@ -594,23 +622,27 @@ def install(recorder):
         if REC is not None and REC.ctx is not None:
             REC.ctx.append((kind,) + payload)
 
+    def rng(name):
+        s = REC.cur_stream if REC is not None else None
+        return getattr(s, name) if s is not None else real[name]
+
     def uniform(a, b):
-        x = real["uniform"](a, b)
+        x = rng("uniform")(a, b)
         log("uniform", a, b, x)
         return x
 
     def expovariate(lambd):
-        x = real["expovariate"](lambd)
+        x = rng("expovariate")(lambd)
         log("expo", lambd, x)
         return x
 
     def choice(seq):
-        x = real["choice"](seq)
+        x = rng("choice")(seq)
         log("choice", len(seq), x)
         return x
 
     def randint(a, b):
-        x = real["randint"](a, b)
+        x = rng("randint")(a, b)
         log("randint", a, b, x)
         return x
     random.uniform, random.expovariate, random.choice, random.randint = uniform, expovariate, choice, randint
